@@ -258,6 +258,13 @@ def leb128_rule(repo: Repo, rep: Report, rid: str) -> None:
         bad = fold["loop_bad"]
         rep.check(not bad, rid, "types/leb128.py:LEB128:termination", "both loops end on every folded value",
                   f"LEB128 {bad[0][0] if bad else ''} does not terminate for (signed, value) = {bad[0][1:] if bad else ''}", rd.loc())
+        bad = fold.get("read0_bad")
+        if bad is not None:
+            r0 = repo.func_opt("types/leb128.py", "LEB128._read_0") or rd
+            rep.check(not bad, rid, f"{r0.key}:fold", "null-terminated reader folded over 6 inputs: stops at and consumes the first element whose value is zero, "
+                      "also when that zero is not minimally encoded (80 00); raises when the terminator is missing",
+                      (f"LEB128._read_0 (signed={bad[0][0]}) on {bad[0][1]} ({bad[0][2]}): {bad[0][3]}, stream left at {bad[0][4]}; expected {bad[0][5]} and position {bad[0][6]}: "
+                       "the terminator is a zero *value*, whatever its encoding") if bad else "", r0.loc())
         return
 
     def consts(fi: FuncInfo, optype) -> set[int]:
